@@ -622,4 +622,20 @@ theorem stopped_quiescent (N : Nat) (s : State) (hi : InvStop s) (hd : s.mdone =
     simp only [Bool.false_eq_true, ↓reduceIte] at this
     split at this <;> cases this
 
+/-- run a schedule of labels (used to exhibit concrete reachable states) -/
+def mrun (n : Nat) : List Label → State → Option State
+  | [], s => some s
+  | l :: ls, s => (step n s l).bind (mrun n ls)
+
+theorem mrun_reachable (n : Nat) (ls : List Label) :
+    ∀ s s', Reachable n s → mrun n ls s = some s' → Reachable n s' := by
+  induction ls with
+  | nil => intro s s' h e; cases e; exact h
+  | cons l ls ih =>
+    intro s s' h e
+    simp only [mrun] at e
+    cases hs : step n s l with
+    | none => rw [hs] at e; cases e
+    | some s1 => rw [hs] at e; exact ih s1 s' (Reachable.step l h hs) e
+
 end Drpc.Migrate.Mux
